@@ -1,40 +1,58 @@
-//! World B — the daemon pipeline under virtual time (stub; implemented next).
-use crate::util::*;
-use serde_json::{json, Value};
-use std::path::Path;
+//! World B — the daemon pipeline under virtual time (DESIGN.md §6).
+//!
+//! Real `thread_manager::run` (poller thread, writer thread, FSM, ShmWriter) driven by a scripted
+//! chronyd and a world model of the oscillator, with real clients (Rust client, raw reader + law,
+//! C client through clockbound.h) asking at chosen virtual instants.
+//! Oracles: C01 C05 C06 C07 C08 C09 C10 C12 C13 C14 C15 C17(ABI) and the daemon-level part of C04.
 
-#[derive(Clone, Copy, Debug, PartialEq)]
-pub enum Profile {
-    Pipeline,
+use crate::models::{self, ErrKind, MsgKind, Status, NS};
+use crate::util::*;
+use crate::world_a::Corrupt;
+use serde_json::{json, Value};
+
+#[path = "world_b_cfg.rs"]
+mod cfg;
+#[path = "world_b_world.rs"]
+mod world;
+#[path = "world_b_oracle.rs"]
+mod oracle;
+#[path = "world_b_run.rs"]
+mod runner;
+
+pub use cfg::{gen_config, shrink, BCfg, Profile};
+pub use runner::{run, BRun};
+
+pub const ROLE_HOST: u8 = 0;
+pub const ROLE_DAEMON: u8 = 1;
+pub const ROLE_CLIENT: u8 = 2;
+pub const ROLE_PUB: u8 = 3;
+
+pub const PHC_REFID: u32 = 0x50484330; // "PHC0"
+
+pub fn rule_text(prop: &str) -> String {
+    let common = "Cases are simulated runs of the daemon pipeline under virtual time: the real thread_manager::run (poller, writer, FSM, ShmWriter) polls a scripted chronyd whose reports are valid at their reply instant against a world model of the oscillator (drift within the configured rate), is killed/restarted or loses worker threads per a seeded fault plan, while real clients (ClockBoundClient, raw ShmReader + ClockErrorBound::now, C client via clockbound.h) ask at seeded, threshold-biased instants; scheduling, step delays, coarse-clock tick and lag come from a seeded scheduler. Two runs are distinct when the hash of their sequence of (thread role, operation, location) differs. ";
+    let nt = match prop {
+        "C01" => "Non-trivial: at least one client call returned Synchronized or FreeRunning and was judged against true time.",
+        "C04" => "Non-trivial (world B part): a daemon incarnation was killed and an attached client later obtained a record of a restarted incarnation.",
+        "C05" => "Non-trivial: at least one interval was compared with the exact growth law on a record with non-zero age.",
+        "C06" => "Non-trivial: at least one call was judged with its monotonic reading at or beyond as_of + 5 s, or on a stored status other than Synchronized.",
+        "C07" => "Non-trivial: at least one synchronised report with a negative offset, or a sub-nanosecond fraction, or a PHC bound was published and compared with the exact formula.",
+        "C08" => "Non-trivial: the history contained a synchronised report followed by at least one non-synchronised outcome that was published.",
+        "C09" => "Non-trivial: at least one record was published before the incarnation's first synchronised report.",
+        "C10" => "Non-trivial: at least one report other than (leap 0..2, fresh) was classified, or one within one interval of the eight-interval threshold.",
+        "C12" => "Non-trivial: a delay of at least 1 ms fell between the two ordered steps on either side (as-of read and query, or realtime and monotonic read).",
+        "C13" => "Non-trivial: at least one poll without usable answer (silence, absence, non-tracking reply, unreadable PHC) was classified against the 5 s grace period.",
+        "C14" => "Non-trivial: a call with the monotonic reading before as-of, or a drift at/above the malformed threshold, or a failing clock_gettime, was judged.",
+        "C15" => "Non-trivial: a worker thread of the daemon terminated or panicked while the daemon was running.",
+        "C17" => "Non-trivial (world B part): at least one paired observation (Rust client and C client on the same segment inside one frozen step) was compared.",
+        _ => "",
+    };
+    format!("{common}{nt}")
 }
-impl Profile {
-    pub fn parse(_s: &str) -> Option<Profile> {
-        Some(Profile::Pipeline)
-    }
-}
-#[derive(Clone, Debug)]
-pub struct BCfg {}
-impl BCfg {
-    pub fn to_json(&self) -> Value {
-        json!({})
-    }
-    pub fn from_json(_v: &Value) -> BCfg {
-        BCfg {}
-    }
-}
-pub fn gen_config(_p: Profile, _seed: u64, _i: u64) -> BCfg {
-    BCfg {}
-}
-pub struct BRun {
-    pub outcome: Outcome,
-    pub report: verif_rt::RunReport,
-}
-pub fn run(_c: &BCfg, _seed: u64, _replay: Option<Vec<u32>>, _trace: bool, _sb: &Path) -> BRun {
-    BRun { outcome: Outcome::default(), report: Default::default() }
-}
-pub fn shrink(_c: &BCfg) -> Vec<BCfg> {
-    vec![]
-}
-pub fn rule_text(_p: &str) -> String {
-    String::new()
+
+#[allow(unused_imports)]
+use {json as _json_unused, Value as _ValueUnused};
+#[allow(dead_code)]
+fn _unused(_: ErrKind, _: MsgKind, _: Status, _: Corrupt) -> i128 {
+    NS + models::NS - NS
 }
